@@ -2,4 +2,4 @@ From TT Require Import Base.Verdict Gpmf.Klv Run.Gpmf_run.
 Definition case := Gpmf_run.case.
 Definition mkCase := Gpmf_run.mkCase.
 (* C07: every decoded value (scaled or not), sample layout and count; rejection of bad payloads *)
-Definition check_case := check (mkProj true true false false) true.
+Definition check_case := check_c07.
